@@ -98,26 +98,27 @@ theorem chunk_from_received (S : SE B DM) (padKey : Nat → Nat) (addr : Nat) (r
   obtain ⟨r, hnet, _, hbody⟩ := chunk_kind_checked S padKey addr reply c h
   cases reply with
   | ok r0 =>
-    simp only [netGet, Except.ok.injEq] at hnet
+    simp only [netGet, netGetWith, Except.ok.injEq] at hnet
     subst hnet
     exact ⟨r0, by simp [received], hbody⟩
   | err e =>
     cases e with
     | split m =>
-      simp only [netGet] at hnet
+      simp only [netGet, netGetWith] at hnet
       split at hnet
       · rename_i r' hsplit
         simp only [Except.ok.injEq] at hnet
         subst hnet
-        obtain ⟨p0, hr, _⟩ := handleSplit_spec _ padKey addr m r' hsplit
-        subst hr
-        cases hbody
+        rcases handleSplit_spec _ _ padKey addr m r' hsplit with ⟨⟨_, hnc, _⟩, _⟩ | ⟨p0, hr, _⟩
+        · exact absurd hbody (hnc _)
+        · subst hr
+          cases hbody
       · cases hnet
-    | notFound => simp [netGet] at hnet
-    | timeout => simp [netGet] at hnet
-    | kindMismatch => simp [netGet] at hnet
-    | notEnoughCopies => simp [netGet] at hnet
-    | doesNotMatch => simp [netGet] at hnet
+    | notFound => simp [netGet, netGetWith] at hnet
+    | timeout => simp [netGet, netGetWith] at hnet
+    | kindMismatch => simp [netGet, netGetWith] at hnet
+    | notEnoughCopies => simp [netGet, netGetWith] at hnet
+    | doesNotMatch => simp [netGet, netGetWith] at hnet
 
 /-- chunk content some holder of this reply set offers (under whatever key) -/
 def Offered (replies : Nat → Reply B) (v : B) : Prop := ∃ a, ∃ r ∈ received (replies a), r.body = .chunk v
@@ -194,12 +195,13 @@ theorem latestPads_ne_nil (key : Nat) (m : List (Rec B)) (hex : ∃ r ∈ m, ∃
     rw [List.mem_filter]; exact ⟨hqm, by simp [hqmc]⟩
   rw [hnil] at this; cases this
 
-/-- `vault_authentic` for the network layer with and without the address check of its split handling. -/
-theorem vault_authentic_any (chk : Bool) (padKey : Nat → Nat) (key : Nat) (reply : Reply B) (p : Pad)
-    (h : getVaultWith chk padKey key reply = .ok p) :
+/-- `vault_authentic` for the network layer with and without the address checks of its split handling (scratchpad arm:
+`chk`, register arm: `regChk`). -/
+theorem vault_authentic_any (chk regChk : Bool) (padKey : Nat → Nat) (key : Nat) (reply : Reply B) (p : Pad)
+    (h : getVaultWith2 chk regChk padKey key reply = .ok p) :
     Authentic key p ∧ (∃ r ∈ received reply, padOf r = some p) ∧
       ∀ q, ReceivedVersion reply q → Authentic key q → q.ctr ≤ p.ctr := by
-  unfold getVaultWith at h
+  unfold getVaultWith2 at h
   split at h
   · -- the network layer handed up one record
     rename_i record hnet
@@ -214,7 +216,7 @@ theorem vault_authentic_any (chk : Bool) (padKey : Nat → Nat) (key : Nat) (rep
         -- where did the record come from?
         cases reply with
         | ok r =>
-          simp only [netGet, Except.ok.injEq] at hnet
+          simp only [netGetWith, Except.ok.injEq] at hnet
           subst hnet
           refine ⟨hauth, ⟨r, by simp [received], hp'⟩, ?_⟩
           rintro q ⟨x, hx, _, hq⟩ _
@@ -224,45 +226,48 @@ theorem vault_authentic_any (chk : Bool) (padKey : Nat → Nat) (key : Nat) (rep
         | err e =>
           cases e with
           | split m =>
-            simp only [netGet] at hnet
+            simp only [netGetWith] at hnet
             split at hnet
             · rename_i r' hsplit
               simp only [Except.ok.injEq] at hnet
               subst hnet
-              obtain ⟨p0, hr, _, _, ⟨x, hxm, _, hxp⟩, hbound⟩ := handleSplit_spec chk padKey (padKey key) m r' hsplit
-              subst hr
-              simp only [padOf, Option.some.injEq] at hp'
-              subst hp'
-              refine ⟨hauth, ⟨x, by simpa [received] using hxm, hxp⟩, ?_⟩
-              rintro q ⟨y, hy, hyh, hq⟩ hqa
-              refine hbound y (by simpa [received] using hy) hyh q hq hqa.2 ?_
-              -- an authentic version lives at the requested key, so the address check lets it through
-              simp [passes, hqa.1]
+              rcases handleSplit_spec chk regChk padKey (padKey key) m r' hsplit with
+                ⟨⟨hnp, _⟩, _⟩ | ⟨p0, hr, _, _, ⟨x, hxm, _, hxp⟩, hbound⟩
+              · -- a transaction / register answer is no scratchpad
+                rw [hnp] at hp'; cases hp'
+              · subst hr
+                simp only [padOf, Option.some.injEq] at hp'
+                subst hp'
+                refine ⟨hauth, ⟨x, by simpa [received] using hxm, hxp⟩, ?_⟩
+                rintro q ⟨y, hy, hyh, hq⟩ hqa
+                refine hbound y (by simpa [received] using hy) hyh q hq hqa.2 ?_
+                -- an authentic version lives at the requested key, so the address check lets it through
+                simp [passes, hqa.1]
             · cases hnet
-          | notFound => simp [netGet] at hnet
-          | timeout => simp [netGet] at hnet
-          | kindMismatch => simp [netGet] at hnet
-          | notEnoughCopies => simp [netGet] at hnet
-          | doesNotMatch => simp [netGet] at hnet
+          | notFound => simp [netGetWith] at hnet
+          | timeout => simp [netGetWith] at hnet
+          | kindMismatch => simp [netGetWith] at hnet
+          | notEnoughCopies => simp [netGetWith] at hnet
+          | doesNotMatch => simp [netGetWith] at hnet
       · cases h
   · -- the split error reached the client: it selects among the received versions itself
     rename_i m hnet
     have hrep : reply = .err (.split m) := by
       cases reply with
-      | ok r => simp [netGet] at hnet
+      | ok r => simp [netGetWith] at hnet
       | err e =>
         cases e with
         | split m' =>
-          simp only [netGet] at hnet
+          simp only [netGetWith] at hnet
           split at hnet
           · cases hnet
           · simp only [Except.error.injEq, NetErr.split.injEq] at hnet
             rw [hnet]
-        | notFound => simp [netGet] at hnet
-        | timeout => simp [netGet] at hnet
-        | kindMismatch => simp [netGet] at hnet
-        | notEnoughCopies => simp [netGet] at hnet
-        | doesNotMatch => simp [netGet] at hnet
+        | notFound => simp [netGetWith] at hnet
+        | timeout => simp [netGetWith] at hnet
+        | kindMismatch => simp [netGetWith] at hnet
+        | notEnoughCopies => simp [netGetWith] at hnet
+        | doesNotMatch => simp [netGetWith] at hnet
     subst hrep
     split at h
     · split at h
@@ -279,12 +284,50 @@ theorem vault_authentic_any (chk : Bool) (padKey : Nat → Nat) (key : Nat) (rep
 
 /-- A returned pad is owned by the requested key, validly signed, is one of the received versions, and no validly
 signed version of the owner that was received as a scratchpad record (`ReceivedVersion`: under a `Scratchpad` header —
-"highest counter among those received" is about scratchpad records, see there) has a higher counter. -/
+"highest counter among those received" is about scratchpad records, see there) has a higher counter.
+SCOPE: owner, signature (`is_valid()`: over counter ‖ hash of the encrypted data), counter and data. The CONTENT TYPE
+`fetch_and_decrypt_vault` returns next to the data (`pad.data_encoding()`) is NOT covered: it is outside the signature
+and whoever answers chooses it (`vault_content_type_holder_controlled`, known finding K-k-content-type-unsigned). -/
 theorem vault_authentic (padKey : Nat → Nat) (key : Nat) (reply : Reply B) (p : Pad)
     (h : getVault padKey key reply = .ok p) :
     Authentic key p ∧ (∃ r ∈ received reply, padOf r = some p) ∧
       ∀ q, ReceivedVersion reply q → Authentic key q → q.ctr ≤ p.ctr :=
-  vault_authentic_any _ padKey key reply p h
+  vault_authentic_any _ _ padKey key reply p h
+
+/-! ### The content type of a vault is not authenticated (K-f4 of C07, seen from the read) -/
+
+/-- the content type delivered is the one the owner gave the pad when signing it -/
+def ContentTypeAsWritten (p : Pad) : Prop := p.enc = p.encOwner
+
+/-- as one would read "validly signed by it": what the vault read returns — data AND content type — is the owner's -/
+def VaultContentTypeAuthentic (B : Type) : Prop :=
+  ∀ (padKey : Nat → Nat) (key : Nat) (reply : Reply B) (p : Pad), getVault padKey key reply = .ok p → ContentTypeAsWritten p
+
+/-- Whoever answers the read chooses the content type: for every authentic pad and EVERY value `e`, the same pad with
+`data_encoding := e` is returned with content type `e` (the signature does not cover the field; no check looks at it). -/
+theorem vault_content_type_holder_controlled (padKey : Nat → Nat) (key : Nat) (hdr : Option Kind) (p : Pad) (e : Nat)
+    (hauth : Authentic key p) :
+    getVault (B := B) padKey key (.ok ⟨hdr, .pad { p with enc := e }⟩) = .ok { p with enc := e } ∧
+    contentTypeOf { p with enc := e } = e := by
+  refine ⟨?_, rfl⟩
+  have ha : Authentic key { p with enc := e } := hauth
+  unfold getVault getVaultWith getVaultWith2
+  simp only [netGetWith, padOf, (okAccepts_iff key _).2 ha, ↓reduceIte]
+
+/-- FALSE of the code: the owner wrote content type 7, a holder answers with the same signed pad and content type 9 -/
+theorem vault_content_type_forged_witness : ¬ VaultContentTypeAuthentic Nat := by
+  intro h
+  have := h id 0 (.ok ⟨some .scratchpad, .pad { owner := 0, ctr := 3, valid := true, ver := 0, enc := 9, encOwner := 7 }⟩)
+    { owner := 0, ctr := 3, valid := true, ver := 0, enc := 9, encOwner := 7 } rfl
+  exact absurd this (by simp [ContentTypeAsWritten])
+
+/-- What holds instead: if no holder tampered with the content type of an authentic version it received, the returned
+content type is the owner's. -/
+theorem vault_content_type_partial (padKey : Nat → Nat) (key : Nat) (reply : Reply B) (p : Pad)
+    (huntampered : ∀ r ∈ received reply, ∀ q, padOf r = some q → Authentic key q → ContentTypeAsWritten q)
+    (h : getVault padKey key reply = .ok p) : ContentTypeAsWritten p := by
+  obtain ⟨ha, ⟨r, hr, hp⟩, _⟩ := vault_authentic padKey key reply p h
+  exact huntampered r hr p hp ha
 
 /-! ### vault_returns_authentic_max — forged and foreign versions are discarded, they do not decide the outcome -/
 
@@ -293,62 +336,139 @@ signature, that version is returned. -/
 theorem vault_returns_authentic_single (padKey : Nat → Nat) (key : Nat) (r : Rec B) (p : Pad)
     (hp : padOf r = some p) (hauth : Authentic key p) :
     getVault padKey key (.ok r) = .ok p := by
-  unfold getVault getVaultWith
-  simp only [netGet, hp, (okAccepts_iff key p).2 hauth, ↓reduceIte]
+  unfold getVault getVaultWith getVaultWith2
+  simp only [netGetWith, hp, (okAccepts_iff key p).2 hauth, ↓reduceIte]
 
 /-- no pad in the map is foreign and yet lives at the requested record key (no collision of scratchpad addresses among
 the pads at hand) -/
 def PadKeysDistinct (padKey : Nat → Nat) (key : Nat) (m : List (Rec B)) : Prop :=
   ∀ r ∈ m, ∀ q, padOf r = some q → padKey q.owner = padKey key → q.owner = key
 
-/-- "Unsigned or foreign versions are discarded", at full strength, for a network layer whose split handling does
-(`chk`) or does not compare pad addresses: whenever the result map of a split read holds a version owned by the
-requested key with a valid signature — next to whatever unsigned, wrongly signed, FOREIGN or undecodable entries, with
-whatever counters, in whatever iteration order, under whatever headers — the read succeeds with an authentic version
-whose counter is the highest among the authentic versions received. -/
-def SplitReturnsAuthenticMax (B : Type) (chk : Bool) : Prop :=
-  ∀ (padKey : Nat → Nat) (key : Nat) (m : List (Rec B)), PadKeysDistinct padKey key m →
+/-- no register among the replies lives at the vault's record key (register and scratchpad addresses are hashes of
+different things; a register at a scratchpad key would be a collision) -/
+def NoRegAtKey (rkey : Nat) (m : List (Rec B)) : Prop := ∀ r ∈ m, ∀ g, regOf r = some g → g.key ≠ rkey
+
+/-- the first parsable header (in visiting order = content-hash order) says `Transaction` and the records under that
+header carry more than one transaction: `handle_split_record_error` then answers with a `Transaction` record, whatever
+else was received (nothing about a transaction is checked there: no signature, no address) -/
+def TxDictates (m : List (Rec B)) : Prop := firstKind m = some .transaction ∧ (unionTxs m).length > 1
+
+/-- "Unsigned or foreign versions are discarded" / "wrong kind", at full strength, for a network layer whose split
+handling does (`chk`, `regChk`) or does not compare scratchpad / register addresses with the key being read: whenever the
+result map of a split read holds a version owned by the requested key with a valid signature — next to whatever
+unsigned, wrongly signed, FOREIGN or undecodable entries, records of OTHER KINDS (registers, transactions, chunks), with
+whatever counters, in whatever order, under whatever headers — the read succeeds with an authentic version whose counter
+is the highest among the authentic versions received. -/
+def SplitReturnsAuthenticMax (B : Type) (chk regChk : Bool) : Prop :=
+  ∀ (padKey : Nat → Nat) (key : Nat) (m : List (Rec B)), PadKeysDistinct padKey key m → NoRegAtKey (padKey key) m →
     (∃ r ∈ m, ∃ q, padOf r = some q ∧ Authentic key q) →
-    ∃ p, getVaultWith chk padKey key (.err (.split m)) = .ok p ∧ Authentic key p ∧ (∃ r ∈ m, padOf r = some p) ∧
+    ∃ p, getVaultWith2 chk regChk padKey key (.err (.split m)) = .ok p ∧ Authentic key p ∧ (∃ r ∈ m, padOf r = some p) ∧
+      ∀ q, ReceivedVersion (.err (.split m)) q → Authentic key q → q.ctr ≤ p.ctr
+
+/-- the same, except for split maps in which a `Transaction` record dictates the kind (`TxDictates`) -/
+def SplitReturnsAuthenticMaxUnlessTx (B : Type) (chk regChk : Bool) : Prop :=
+  ∀ (padKey : Nat → Nat) (key : Nat) (m : List (Rec B)), PadKeysDistinct padKey key m → NoRegAtKey (padKey key) m →
+    ¬ TxDictates m →
+    (∃ r ∈ m, ∃ q, padOf r = some q ∧ Authentic key q) →
+    ∃ p, getVaultWith2 chk regChk padKey key (.err (.split m)) = .ok p ∧ Authentic key p ∧ (∃ r ∈ m, padOf r = some p) ∧
       ∀ q, ReceivedVersion (.err (.split m)) q → Authentic key q → q.ctr ≤ p.ctr
 
 def good : Pad := { owner := 0, ctr := 3, valid := true, ver := 0 }
 def newer : Pad := { owner := 0, ctr := 4, valid := true, ver := 1 }
 def foreign : Pad := { owner := 1, ctr := 9, valid := true, ver := 1 }
 def unsigned : Pad := { owner := 0, ctr := 9, valid := false, ver := 1 }
+/-- somebody else's validly signed register, living at its own key 5 -/
+def foreignReg : Reg := { key := 5, valid := true, id := 0 }
 
-/-- FALSE of the code as it was (network layer without the address check): a validly signed pad of ANOTHER owner with a
+/-- FALSE of the code as it was (scratchpad arm without the address check): a validly signed pad of ANOTHER owner with a
 higher counter wins inside `handle_split_record_error`, the client's own owner filter then refuses it and the whole
 read fails although an authentic version was received. Reproduced on the real code: `vault 0 sp=s:P0.3.v.0,s:P1.9.v.1`
 gave `err invalid` (now `ok 0.3.0`; replayable, it is in the harness corpus and found again by the model search when
 the check is removed). -/
-theorem split_foreign_pad_hides_authentic_witness : ¬ SplitReturnsAuthenticMax Nat false := by
+theorem split_foreign_pad_hides_authentic_witness : ¬ SplitReturnsAuthenticMaxUnlessTx Nat false true := by
   intro h
   obtain ⟨p, hp, _⟩ := h id 0 [⟨some .scratchpad, .pad good⟩, ⟨some .scratchpad, .pad foreign⟩]
     (by
       intro r hr q hq hk
       simp only [List.mem_cons, List.not_mem_nil, or_false] at hr
       rcases hr with rfl | rfl <;> (simp only [padOf, Option.some.injEq] at hq; subst hq; exact hk))
+    (by
+      intro r hr g hg
+      simp only [List.mem_cons, List.not_mem_nil, or_false] at hr
+      rcases hr with rfl | rfl <;> simp [regOf] at hg)
+    (by intro ht; exact absurd ht.1 (by decide))
     ⟨_, List.mem_cons_self, good, rfl, rfl, rfl⟩
-  have hval : getVaultWith (B := Nat) false id 0
+  have hval : getVaultWith2 (B := Nat) false true id 0
       (.err (.split [⟨some .scratchpad, .pad good⟩, ⟨some .scratchpad, .pad foreign⟩])) = .error .invalid := rfl
   rw [hval] at hp
   cases hp
 
-/-- With the address check in the network layer's split handling the clause holds. -/
-theorem split_returns_authentic_max_checked : SplitReturnsAuthenticMax B true := by
-  intro padKey key m hcf hex
-  have key_step : ∃ p, getVaultWith true padKey key (.err (.split m)) = .ok p := by
-    unfold getVaultWith
-    simp only [netGet]
-    cases hs : handleSplit true padKey (padKey key) m with
+/-- FALSE of the code as it was (register arm without the address check): ONE holder answers the vault key with somebody
+else's validly signed REGISTER; its content hash sorts first, so it dictates the kind, the pads the majority returned are
+skipped, the register is collected and returned as the record of the scratchpad key, and the vault read fails. -/
+theorem split_foreign_register_hides_authentic_witness : ¬ SplitReturnsAuthenticMaxUnlessTx Nat true false := by
+  intro h
+  obtain ⟨p, hp, _⟩ := h id 0 [⟨some .register, .reg foreignReg⟩, ⟨some .scratchpad, .pad good⟩]
+    (by
+      intro r hr q hq hk
+      simp only [List.mem_cons, List.not_mem_nil, or_false] at hr
+      rcases hr with rfl | rfl
+      · simp [padOf] at hq
+      · simp only [padOf, Option.some.injEq] at hq; subst hq; exact hk)
+    (by
+      intro r hr g hg
+      simp only [List.mem_cons, List.not_mem_nil, or_false] at hr
+      rcases hr with rfl | rfl
+      · simp only [regOf, Option.some.injEq] at hg; subst hg; decide
+      · simp [regOf] at hg)
+    (by intro ht; exact absurd ht.1 (by decide))
+    ⟨_, List.mem_cons_of_mem _ List.mem_cons_self, good, rfl, rfl, rfl⟩
+  have hval : getVaultWith2 (B := Nat) true false id 0
+      (.err (.split [⟨some .register, .reg foreignReg⟩, ⟨some .scratchpad, .pad good⟩])) = .error .invalid := rfl
+  rw [hval] at hp
+  cases hp
+
+/-- FALSE of the code as it is, both address checks in place (known finding K-k-wrongkind-tx-dictates): ONE holder
+answers the vault key with a `Transaction` record holding two transactions (anything that decodes: nothing is verified);
+its content hash sorts first, it dictates the kind, the pads are skipped, the two transactions are "accumulated" and
+returned as the record of the scratchpad key, and the vault read fails although the authentic pad was received. -/
+theorem split_tx_record_hides_authentic_witness : ¬ SplitReturnsAuthenticMax Nat true true := by
+  intro h
+  obtain ⟨p, hp, _⟩ := h id 0 [⟨some .transaction, .txs [1, 2]⟩, ⟨some .scratchpad, .pad good⟩]
+    (by
+      intro r hr q hq hk
+      simp only [List.mem_cons, List.not_mem_nil, or_false] at hr
+      rcases hr with rfl | rfl
+      · simp [padOf] at hq
+      · simp only [padOf, Option.some.injEq] at hq; subst hq; exact hk)
+    (by
+      intro r hr g hg
+      simp only [List.mem_cons, List.not_mem_nil, or_false] at hr
+      rcases hr with rfl | rfl <;> simp [regOf] at hg)
+    ⟨_, List.mem_cons_of_mem _ List.mem_cons_self, good, rfl, rfl, rfl⟩
+  have hval : getVaultWith2 (B := Nat) true true id 0
+      (.err (.split [⟨some .transaction, .txs [1, 2]⟩, ⟨some .scratchpad, .pad good⟩])) = .error .invalid := rfl
+  rw [hval] at hp
+  cases hp
+
+/-- With both address checks in the network layer's split handling the clause holds for every split map in which no
+`Transaction` record dictates the kind. -/
+theorem split_returns_authentic_max_checked : SplitReturnsAuthenticMaxUnlessTx B true true := by
+  intro padKey key m hcf hnr hnt hex
+  have key_step : ∃ p, getVaultWith2 true true padKey key (.err (.split m)) = .ok p := by
+    unfold getVaultWith2
+    simp only [netGetWith]
+    cases hs : handleSplit true true padKey (padKey key) m with
     | some r =>
-      -- the network layer reduced the split to one pad: it lives at the requested key, so it is the owner's
-      obtain ⟨p0, hr, hv, hpass, ⟨x, hxm, _, hxp⟩, _⟩ := handleSplit_spec true padKey (padKey key) m r hs
-      subst hr
-      have hown : p0.owner = key := hcf x hxm p0 hxp (by simpa [passes] using hpass)
-      refine ⟨p0, ?_⟩
-      simp only [padOf, (okAccepts_iff key p0).2 ⟨hown, hv⟩, ↓reduceIte]
+      rcases handleSplit_spec true true padKey (padKey key) m r hs with
+        ⟨_, ⟨hk, hlen⟩ | ⟨_, x, hxm, g, hxg, hgk⟩⟩ | ⟨p0, hr, hv, hpass, ⟨x, hxm, _, hxp⟩, _⟩
+      · exact absurd ⟨hk, hlen⟩ hnt
+      · exact absurd (hgk rfl) (hnr x hxm g hxg)
+      · -- the network layer reduced the split to one pad: it lives at the requested key, so it is the owner's
+        subst hr
+        have hown : p0.owner = key := hcf x hxm p0 hxp (by simpa [passes] using hpass)
+        refine ⟨p0, ?_⟩
+        simp only [padOf, (okAccepts_iff key p0).2 ⟨hown, hv⟩, ↓reduceIte]
     | none =>
       -- the split reached the client, whose filter keeps the authentic versions
       simp only [Gen.ClientRead.vaultSplitDropsUndeserialisable, Bool.true_or, ↓reduceIte]
@@ -356,18 +476,62 @@ theorem split_returns_authentic_max_checked : SplitReturnsAuthenticMax B true :=
       | nil => exact absurd hl (latestPads_ne_nil key m hex)
       | cons p rest => exact ⟨p, rfl⟩
   obtain ⟨p, hp⟩ := key_step
-  obtain ⟨ha, hfrom, hmax⟩ := vault_authentic_any true padKey key _ p hp
+  obtain ⟨ha, hfrom, hmax⟩ := vault_authentic_any true true padKey key _ p hp
   exact ⟨p, hp, ha, by simpa [received] using hfrom, hmax⟩
 
-/-- The clause for the code as it is: the flag regenerated from `ant-networking/src/lib.rs` says the check is there. -/
+/-- The clause for the code as it is — conditional on the flags regenerated from `ant-networking/src/lib.rs` saying both
+address checks are there, so the statement stays checkable whichever of the repairs is in the tree. -/
 theorem vault_returns_authentic_max (padKey : Nat → Nat) (key : Nat) (m : List (Rec B))
-    (hcf : PadKeysDistinct padKey key m) (hex : ∃ r ∈ m, ∃ q, padOf r = some q ∧ Authentic key q) :
+    (hpadflag : Gen.ClientRead.netSplitChecksPadKey = true) (hregflag : Gen.ClientRead.netSplitRegChecksKey = true)
+    (hcf : PadKeysDistinct padKey key m) (hnr : NoRegAtKey (padKey key) m) (hnt : ¬ TxDictates m)
+    (hex : ∃ r ∈ m, ∃ q, padOf r = some q ∧ Authentic key q) :
     ∃ p, getVault padKey key (.err (.split m)) = .ok p ∧ Authentic key p ∧ (∃ r ∈ m, padOf r = some p) ∧
       ∀ q, ReceivedVersion (.err (.split m)) q → Authentic key q → q.ctr ≤ p.ctr := by
-  have hflag : Gen.ClientRead.netSplitChecksPadKey = true := rfl
-  unfold getVault
-  rw [hflag]
-  exact split_returns_authentic_max_checked padKey key m hcf hex
+  unfold getVault getVaultWith
+  rw [hpadflag, hregflag]
+  exact split_returns_authentic_max_checked padKey key m hcf hnr hnt hex
+
+/-! ### From the holders' replies to the client: the swarm driver's split branch in between -/
+
+/-- a split map that holds a scratchpad is not "all transactions" -/
+theorem kadSplitReply_of_pad (m : List (Rec B)) (hex : ∃ r ∈ m, ∃ q, padOf r = some q) :
+    kadSplitReply true m = .err (.split m) := by
+  obtain ⟨r, hr, q, hq⟩ := hex
+  have hnot : m.all (fun r => (txsOf r).isSome) = false := by
+    rw [List.all_eq_false]
+    refine ⟨r, hr, ?_⟩
+    have : txsOf r = none := by
+      unfold padOf at hq
+      unfold txsOf
+      split at hq
+      · split <;> simp_all
+      · cases hq
+    simp [this]
+  simp [kadSplitReply, hnot]
+
+/-- FALSE of the swarm driver as it was (`accMergeNeedsAllTx = false`): the quorum is reached for the authentic pad while
+ONE holder has answered with a transaction record; the driver answers the caller `Ok(the transactions)` and silently
+drops the pad, the vault read fails. -/
+theorem kad_union_drops_authentic_witness :
+    getVaultWith2 (B := Nat) true true id 0 (kadSplitReply false [⟨some .scratchpad, .pad good⟩, ⟨some .transaction, .txs [1]⟩])
+      = .error .invalid := rfl
+
+/-- One holder's wrong-kind reply does not make a vault read fail (PARTIAL: hypothesis `¬ TxDictates`, see
+`split_tx_record_hides_authentic_witness`): the versions the swarm driver holds when the quorum is reached include an
+authentic pad of the requested key; next to it, whatever registers (validly signed, of other addresses), transaction
+records, chunks, forged and foreign pads one or more holders sent. With the three repairs in the tree (flags regenerated
+from lib.rs / event/kad.rs) the driver hands the whole split up, the split handling does not let a foreign register or
+pad win, and the read returns an authentic version of the highest counter. -/
+theorem vault_read_survives_wrong_kind_reply_partial (padKey : Nat → Nat) (key : Nat) (m : List (Rec B))
+    (hpadflag : Gen.ClientRead.netSplitChecksPadKey = true) (hregflag : Gen.ClientRead.netSplitRegChecksKey = true)
+    (htxflag : Gen.ClientRead.netAccMergeNeedsAllTx = true)
+    (hcf : PadKeysDistinct padKey key m) (hnr : NoRegAtKey (padKey key) m) (hnt : ¬ TxDictates m)
+    (hex : ∃ r ∈ m, ∃ q, padOf r = some q ∧ Authentic key q) :
+    ∃ p, getVault padKey key (kadSplitReply Gen.ClientRead.netAccMergeNeedsAllTx m) = .ok p ∧ Authentic key p ∧
+      (∃ r ∈ m, padOf r = some p) ∧
+      ∀ q, ReceivedVersion (.err (.split m)) q → Authentic key q → q.ctr ≤ p.ctr := by
+  rw [htxflag, kadSplitReply_of_pad m (by obtain ⟨r, hr, q, hq, _⟩ := hex; exact ⟨r, hr, q, hq⟩)]
+  exact vault_returns_authentic_max padKey key m hpadflag hregflag hcf hnr hnt hex
 
 /-! ### no_authentic_no_data -/
 
@@ -436,8 +600,11 @@ example : getVault (B := Nat) id 0 (.err (.split [⟨some .scratchpad, .pad unsi
     = .error .missing := rfl
 /-- the foreign higher-counter pad no longer hides the authentic one (it did: `getVaultWith false`) -/
 example : getVault (B := Nat) id 0 (.err (.split [⟨some .scratchpad, .pad good⟩, ⟨some .scratchpad, .pad foreign⟩])) = .ok good := rfl
-example : getVaultWith (B := Nat) false id 0 (.err (.split [⟨some .scratchpad, .pad good⟩, ⟨some .scratchpad, .pad foreign⟩]))
+example : getVaultWith2 (B := Nat) false true id 0 (.err (.split [⟨some .scratchpad, .pad good⟩, ⟨some .scratchpad, .pad foreign⟩]))
     = .error .invalid := rfl
+/-- a foreign register (one holder) next to the authentic pad: rejected by the key check, the split goes up, the pad is read -/
+example : getVaultWith2 (B := Nat) true true id 0 (.err (.split [⟨some .register, .reg foreignReg⟩, ⟨some .scratchpad, .pad good⟩]))
+    = .ok good := rfl
 example : getVault (B := Nat) id 0 (.err (.split [⟨some .scratchpad, .pad foreign⟩, ⟨some .scratchpad, .pad newer⟩, ⟨some .scratchpad, .pad good⟩]))
     = .ok newer := rfl
 
@@ -452,6 +619,13 @@ end SafeNet.Props.C15
 #print axioms SafeNet.Props.C15.vault_authentic
 #print axioms SafeNet.Props.C15.vault_returns_authentic_single
 #print axioms SafeNet.Props.C15.vault_returns_authentic_max
+#print axioms SafeNet.Props.C15.vault_read_survives_wrong_kind_reply_partial
+#print axioms SafeNet.Props.C15.split_foreign_register_hides_authentic_witness
+#print axioms SafeNet.Props.C15.split_tx_record_hides_authentic_witness
+#print axioms SafeNet.Props.C15.kad_union_drops_authentic_witness
+#print axioms SafeNet.Props.C15.vault_content_type_holder_controlled
+#print axioms SafeNet.Props.C15.vault_content_type_forged_witness
+#print axioms SafeNet.Props.C15.vault_content_type_partial
 #print axioms SafeNet.Props.C15.split_returns_authentic_max_checked
 #print axioms SafeNet.Props.C15.split_foreign_pad_hides_authentic_witness
 #print axioms SafeNet.Props.C15.vault_authentic_any
